@@ -40,3 +40,187 @@ type WaitGroup struct{ _ byte }
 func (w *WaitGroup) Add(n int) { vrt.WGAdd(vrt.LookupSync(unsafe.Pointer(w), "wg"), n) }
 func (w *WaitGroup) Done()     { w.Add(-1) }
 func (w *WaitGroup) Wait()     { vrt.WGWait(vrt.LookupSync(unsafe.Pointer(w), "wg")) }
+
+// OnceFunc, OnceValue and OnceValues as in package sync, on the controlled Once.
+func OnceFunc(f func()) func() {
+	var o Once
+	return func() { o.Do(f) }
+}
+
+func OnceValue[T any](f func() T) func() T {
+	var o Once
+	var v T
+	return func() T {
+		o.Do(func() { v = f() })
+		return v
+	}
+}
+
+func OnceValues[T1, T2 any](f func() (T1, T2)) func() (T1, T2) {
+	var o Once
+	var v1 T1
+	var v2 T2
+	return func() (T1, T2) {
+		o.Do(func() { v1, v2 = f() })
+		return v1, v2
+	}
+}
+
+// Pool replaces sync.Pool: a LIFO free list that belongs to the current execution (a package-level pool starts
+// empty in every execution, so executions stay independent and replayable). Get and Put are mutex-protected
+// operations: scheduling points with the happens-before edges sync.Pool documents (Put(x) before the Get
+// returning x). Nothing is ever dropped, which is the behaviour that exposes stale contents soonest.
+type Pool struct {
+	New func() any
+	_   byte
+}
+
+type poolData struct{ items []any }
+
+func (p *Pool) data() (*vrt.SyncObj, *poolData) {
+	s := vrt.LookupSync(unsafe.Pointer(p), "pool")
+	if s.Aux == nil {
+		s.Aux = &poolData{}
+	}
+	return s, s.Aux.(*poolData)
+}
+
+func (p *Pool) Get() any {
+	s, d := p.data()
+	vrt.Lock(s)
+	var x any
+	if n := len(d.items); n > 0 {
+		x = d.items[n-1]
+		d.items = d.items[:n-1]
+	}
+	vrt.Unlock(s)
+	if x == nil && p.New != nil {
+		x = p.New()
+	}
+	return x
+}
+
+func (p *Pool) Put(x any) {
+	if x == nil {
+		return
+	}
+	s, d := p.data()
+	vrt.Lock(s)
+	d.items = append(d.items, x)
+	vrt.Unlock(s)
+}
+
+// Map replaces sync.Map: a mutex-protected map of the current execution; Range visits in insertion order.
+type Map struct{ _ byte }
+
+type mapData struct {
+	m    map[any]any
+	keys []any
+}
+
+func (m *Map) data() (*vrt.SyncObj, *mapData) {
+	s := vrt.LookupSync(unsafe.Pointer(m), "syncmap")
+	if s.Aux == nil {
+		s.Aux = &mapData{m: map[any]any{}}
+	}
+	return s, s.Aux.(*mapData)
+}
+
+func (d *mapData) del(k any) {
+	delete(d.m, k)
+	for i, x := range d.keys {
+		if x == k {
+			d.keys = append(d.keys[:i:i], d.keys[i+1:]...)
+			break
+		}
+	}
+}
+
+func (m *Map) Load(k any) (any, bool) {
+	s, d := m.data()
+	vrt.Lock(s)
+	defer vrt.Unlock(s)
+	v, ok := d.m[k]
+	return v, ok
+}
+
+func (m *Map) Store(k, v any) { m.Swap(k, v) }
+
+func (m *Map) Swap(k, v any) (any, bool) {
+	s, d := m.data()
+	vrt.Lock(s)
+	defer vrt.Unlock(s)
+	old, ok := d.m[k]
+	if !ok {
+		d.keys = append(d.keys, k)
+	}
+	d.m[k] = v
+	return old, ok
+}
+
+func (m *Map) LoadOrStore(k, v any) (any, bool) {
+	s, d := m.data()
+	vrt.Lock(s)
+	defer vrt.Unlock(s)
+	if old, ok := d.m[k]; ok {
+		return old, true
+	}
+	d.m[k] = v
+	d.keys = append(d.keys, k)
+	return v, false
+}
+
+func (m *Map) LoadAndDelete(k any) (any, bool) {
+	s, d := m.data()
+	vrt.Lock(s)
+	defer vrt.Unlock(s)
+	v, ok := d.m[k]
+	if ok {
+		d.del(k)
+	}
+	return v, ok
+}
+
+func (m *Map) Delete(k any) { m.LoadAndDelete(k) }
+
+func (m *Map) CompareAndSwap(k, old, new any) bool {
+	s, d := m.data()
+	vrt.Lock(s)
+	defer vrt.Unlock(s)
+	if v, ok := d.m[k]; ok && v == old {
+		d.m[k] = new
+		return true
+	}
+	return false
+}
+
+func (m *Map) CompareAndDelete(k, old any) bool {
+	s, d := m.data()
+	vrt.Lock(s)
+	defer vrt.Unlock(s)
+	if v, ok := d.m[k]; ok && v == old {
+		d.del(k)
+		return true
+	}
+	return false
+}
+
+func (m *Map) Range(f func(k, v any) bool) {
+	s, d := m.data()
+	vrt.Lock(s)
+	keys := append([]any(nil), d.keys...)
+	vrt.Unlock(s)
+	for _, k := range keys {
+		v, ok := m.Load(k)
+		if ok && !f(k, v) {
+			return
+		}
+	}
+}
+
+func (m *Map) Clear() {
+	s, d := m.data()
+	vrt.Lock(s)
+	d.m, d.keys = map[any]any{}, nil
+	vrt.Unlock(s)
+}
